@@ -735,3 +735,185 @@ def prior_table_assembly(g):
             return None
         g.forall_paths(f"{name3}:is-conditional_coalescent_variance(n)[k]", paths3, tv,
                        "tau_var_exact(n, ks) == conditional_coalescent_variance(n)[ks]")
+
+
+# =====================================================================================================================
+# C21: ExpectationPropagation.propagate_prior keeps the bookkeeping identity  posterior[n] == scale[n] * S[n]
+# (S = sum of all messages addressed to n; only the MIXPRIOR node factor is rewritten here).  The vectorised body is
+# outside G1's subset, so the statements of the REAL body are given their element-wise meaning for one free row i
+# (A-NUMPY: boolean-mask / row indexing and broadcasting act row by row) and the identity is discharged by z3 over the
+# reals.  `penalty` (result of the EM while-loop) and `eta` (result of posterior_damping, > 0 by the verified contract of
+# _rescale) are arbitrary.  Added after the second C21 seed landed in this formerly assumed callee.
+def propagate_prior_bookkeeping(g):
+    name = "variational.ExpectationPropagation.propagate_prior"
+    ob = f"{name}:C21-posterior-equals-scale-times-sum-of-messages-after-prior-update"
+    clause = ("forall free row i, k in {0,1}, penalty, eta > 0, scale[i] > 0: posterior[i,k] == scale[i] * S[i,k] before  ==>  "
+              "posterior'[i,k] == scale'[i] * (S[i,k] - node[i,MIXPRIOR,k] + node'[i,MIXPRIOR,k]) after")
+    try:
+        fn = extract.get_function(name)
+    except LookupError as e:
+        g.ob(f"{name}:attach", False, "function exists", str(e), verdict="does-not-attach")
+        return
+    g.ctx.functions.append({**fn.describe(), "mode": "G3 + z3: element-wise meaning of the vectorised statements for one free row"})
+    R = z3.Real
+    st = {"posterior": [R("post0_0"), R("post0_1")], "factor": [R("fac0_0"), R("fac0_1")], "scale": R("scale0")}
+    init = {k: (list(v) if isinstance(v, list) else v) for k, v in st.items()}
+    S0 = [R("S0_0"), R("S0_1")]
+    hyps = [init["scale"] > 0] + [init["posterior"][k] == init["scale"] * S0[k] for k in (0, 1)]
+    cnt = [0]
+
+    def comp(ix):
+        t = ast.unparse(ix)
+        if t in ("0", "1"):
+            return int(t)
+        raise Stuck(f"component index {t}")
+
+    def ref(e):
+        """-> (kind, base, component or None)"""
+        base = ast.unparse(e.value)
+        el = list(e.slice.elts) if isinstance(e.slice, ast.Tuple) else [e.slice]
+        tx = [ast.unparse(x) for x in el]
+        if tx[0] not in ("free", "i", ":"):
+            raise Stuck(f"row index `{tx[0]}` in {ast.unparse(e)}")
+        if base in ("posterior", "cavity"):
+            if len(el) == 1:
+                return base, None
+            if len(el) == 2:
+                return base, comp(el[1])
+        if base in ("factor", "factors.node"):
+            if len(el) >= 2 and tx[1] == "MIXPRIOR":
+                return "factor", (None if len(el) == 2 else comp(el[2]))
+            if len(el) >= 2 and tx[1] == "CONSTRNT":
+                raise Stuck("write/read of the constraint factor")
+        if base in ("scale", "factors.scale"):
+            if len(el) == 1 or (len(el) == 2 and tx[1] == "np.newaxis"):
+                return "scale", None
+        raise Stuck(f"reference {ast.unparse(e)}")
+
+    def ev(e):
+        if isinstance(e, ast.Constant) and isinstance(e.value, (int, float)) and not isinstance(e.value, bool):
+            return z3.RealVal(repr(e.value))
+        if isinstance(e, ast.Name):
+            if e.id in st and e.id not in ("posterior", "factor", "scale"):
+                return st[e.id]
+            if e.id == "posterior":
+                return list(st["posterior"])
+            raise Stuck(f"name {e.id}")
+        if isinstance(e, ast.Subscript):
+            kind, c = ref(e)
+            v = st[kind]
+            return v if kind == "scale" else (list(v) if c is None else v[c])
+        if isinstance(e, ast.BinOp) and isinstance(e.op, (ast.Add, ast.Sub, ast.Mult, ast.Div)):
+            a, b = ev(e.left), ev(e.right)
+            f = {ast.Add: lambda x, y: x + y, ast.Sub: lambda x, y: x - y, ast.Mult: lambda x, y: x * y, ast.Div: lambda x, y: x / y}[type(e.op)]
+            if isinstance(a, list) or isinstance(b, list):
+                a = a if isinstance(a, list) else [a, a]
+                b = b if isinstance(b, list) else [b, b]
+                return [f(a[0], b[0]), f(a[1], b[1])]
+            return f(a, b)
+        if isinstance(e, ast.UnaryOp) and isinstance(e.op, ast.USub):
+            a = ev(e.operand)
+            return [-a[0], -a[1]] if isinstance(a, list) else -a
+        raise Stuck(f"expression `{ast.unparse(e)}`")
+
+    def store(target, v):
+        kind, c = ref(target)
+        if kind == "cavity":
+            raise Stuck("store into cavity")
+        if kind == "scale":
+            if isinstance(v, list):
+                raise Stuck("vector stored into scale")
+            st["scale"] = v
+        elif c is None:
+            st[kind] = list(v) if isinstance(v, list) else [v, v]
+        else:
+            if isinstance(v, list):
+                raise Stuck("vector stored into a component")
+            st[kind] = list(st[kind])
+            st[kind][c] = v
+
+    def tracked_write(node):
+        for n in ast.walk(node):
+            if isinstance(n, (ast.Assign, ast.AugAssign)):
+                for t in (n.targets if isinstance(n, ast.Assign) else [n.target]):
+                    for x in ast.walk(t):
+                        if isinstance(x, ast.Subscript) and ast.unparse(x.value) in ("posterior", "factor", "scale", "factors.node", "factors.scale", "factors.edge", "factors.block"):
+                            return ast.unparse(n)
+                        if isinstance(x, ast.Name) and x.id in ("posterior", "factor", "scale", "cavity") and isinstance(t, ast.Name):
+                            return ast.unparse(n)
+        return None
+
+    def run(stmts):
+        for s in stmts:
+            if isinstance(s, (ast.FunctionDef, ast.Assert, ast.Pass)) or (isinstance(s, ast.Expr) and isinstance(s.value, ast.Constant)):
+                continue
+            if isinstance(s, ast.If) and all(isinstance(x, ast.Return) and x.value is None for x in s.body) and not s.orelse:
+                continue  # `if not np.any(free): return` -- nothing written on that path
+            if isinstance(s, ast.While):
+                w = tracked_write(s)
+                if w:
+                    raise Stuck(f"the EM loop writes tracked state: {w}")
+                continue
+            if isinstance(s, ast.For) and _norm(ast.unparse(s.iter)) in (_norm("np.flatnonzero(free)"), _norm("np.where(free)[0]")) and ast.unparse(s.target) == "i":
+                run(s.body)
+                continue
+            if isinstance(s, ast.Assign) and len(s.targets) == 1:
+                t = s.targets[0]
+                tt, vt_ = ast.unparse(t), _norm(ast.unparse(s.value))
+                if isinstance(t, ast.Name):
+                    if (tt, vt_) in (("factor", "factors.node"), ("scale", "factors.scale")):
+                        continue
+                    if tt == "cavity":
+                        st["cavity"] = ev(s.value)
+                        continue
+                    if tt == "eta" and isinstance(s.value, ast.Call) and ast.unparse(s.value.func) == "posterior_damping":
+                        cnt[0] += 1
+                        st["eta"] = z3.Real(f"eta{cnt[0]}")
+                        hyps.append(st["eta"] > 0)
+                        continue
+                    if tt in ("posterior", "factor", "scale"):
+                        raise Stuck(f"rebinding `{ast.unparse(s)}`")
+                    if tt == "penalty":
+                        st["penalty"] = z3.Real("penalty")
+                        continue
+                    continue  # other locals (shape, rate, itt, delta): only feed `penalty`, which is arbitrary
+                if isinstance(t, ast.Tuple) and all(isinstance(x, ast.Name) and x.id not in ("posterior", "factor", "scale", "cavity") for x in t.elts):
+                    continue
+                if isinstance(t, ast.Subscript):
+                    store(t, ev(s.value))
+                    continue
+            if isinstance(s, ast.AugAssign) and isinstance(s.target, ast.Subscript) and isinstance(s.op, (ast.Mult, ast.Add, ast.Sub, ast.Div)):
+                store(s.target, ev(ast.BinOp(left=s.target, op=s.op, right=s.value)))
+                continue
+            if isinstance(s, ast.AugAssign) and isinstance(s.target, ast.Name) and s.target.id not in ("posterior", "factor", "scale", "cavity"):
+                continue
+            raise Stuck(f"statement `{ast.unparse(s)[:70]}`")
+    try:
+        run(fn.node.body)
+    except Stuck as e:
+        g.ob(ob, False, clause, f"the element-wise evaluator cannot follow {e}", verdict="does-not-attach")
+        return
+    g.ctx.add_assumption("C21/A-NUMPY: in propagate_prior, X[free, ...] / X[:, ...] / X[i, ...] statements act row by row with "
+                         "broadcasting over the last axis; `penalty` and `eta` (> 0, contract of _rescale) are arbitrary reals; A-REAL")
+    bad = None
+    for k in (1, 0):
+        s = z3.Solver()
+        s.set("timeout", 30000)
+        s.add(*hyps)
+        goal = st["posterior"][k] == st["scale"] * (S0[k] - init["factor"][k] + st["factor"][k])
+        s.add(z3.Not(goal))
+        r = s.check()
+        if r == z3.sat:
+            m = s.model()
+            bad = (bad + " | " if bad else "") + f"component {k}: counter-model " + ", ".join(
+                f"{d.name()}={m[d]}" for d in m.decls() if d.arity() == 0)[:300]
+        if r == z3.unknown:
+            g.ob(ob, False, clause, "z3 unknown", verdict="unknown")
+            return
+    g.ob(ob, not bad, clause + "   [z3, real body statement by statement]", bad)
+    pos = None
+    s = z3.Solver()
+    s.add(*hyps)
+    s.add(z3.Not(st["scale"] > 0))
+    pos = s.check() == z3.unsat
+    g.ob(f"{name}:scale-stays-positive", pos, "scale'[i] > 0 (scale[i] > 0, eta > 0)", None if pos else "scale' may be <= 0")
